@@ -56,6 +56,12 @@ JOBS["session"] = dict(module="MC_Session", constants=dict(Slice="session", Dept
                        subst=BIP_SUBST, invariants=["EachRunIsItsOwnSLD", "Terminates", "Emit"], constraint="WithinBudget",
                        timeout={"quick": 1200, "thorough": 3600})
 
+TIMER_INV = ["NoFalseTimeout", "RealAnswers", "FastUndisturbed", "NoLateFire", "CancelReturns", "Emit"]
+JOBS["timer"] = dict(module="MC_Timer", constants=dict(Slice="timer", NQ=2, GenerationFix="TRUE"), invariants=TIMER_INV,
+                     timeout={"quick": 600, "thorough": 1800}, workers=4)
+JOBS["timer3"] = dict(module="MC_Timer", constants=dict(Slice="timer", NQ=3, GenerationFix="TRUE"), invariants=TIMER_INV,
+                      timeout={"quick": 600, "thorough": 1800}, workers=8, tiers=("thorough",))
+
 UNIFY_ASSUME = [
     "pairs whose unification needs an occurs check are generated but excluded (counted under excluded_cases)",
     "the universe is bounded: terms of depth <= 2 over 2 atoms, 1 integer, 2 floats, 3 variables, $_, f/1 g/2 h/0, lists of <= 3 elements with and without tail",
@@ -99,6 +105,10 @@ PROPS = {
                 rule="all histories of 1-2 (thorough 3) episodes over 4-6 queries x 8-14 call lists (next_solution x4 incl. re-asks after exhaustion, solve x3, solve_all, mixes, and solve / solve_all calls during which the query timer fires before the 1st..5th count_rules()); every query is built with make_query + make_base_node only; TLC checks EachRunIsItsOwnSLD on Session.tla and the history is replayed with the virtual timer hook",
                 assumptions=["a query is not resumed after a later query has been built", "calls made on a query after one of its own calls timed out are unconstrained",
                              "the timer's firing point is virtual (a hook in count_rules()); real-time firing is covered by the C23 timer slices"]),
+    "C23": dict(jobs=["timer", "timer3", "session"], level="model_checking",
+                rule="all interleavings of 2 (thorough 3) consecutive solve() calls with their timer threads in Timer.tla (thread_timer's locks, the unsynchronised flag, fast and slow queries); TLC checks NoFalseTimeout, RealAnswers, FastUndisturbed, NoLateFire on the protocol; every distinct schedule (where the main thread is when each callback runs) that the hooks can enforce is replayed against the real 1 s timer with a calibrated ~1.7 s search, the callback held at a gate and released at the chosen point; plus the solve / solve_all reporting rules of the session histories (virtual timer)",
+                assumptions=["wall-clock durations are abstracted to fast / slow; schedules in which the callback runs between the end of the search and the flag read inside solve() cannot be enforced from outside and are covered by the model only",
+                             "the timer protocol modelled is thread_timer 0.3.0 as vendored in the cargo registry"]),
     "C06": dict(jobs=["unify-laws", "unify-plain", "unify-sess"], level="model_checking",
                 rule="every ordered pair of universe terms x every prior substitution (and every session of 2-3 unifications), enumerated by TLC; "
                      "non-trivial = the Unify machine takes at least one deref/bind/decompose/list step; distinct by (terms, prior)",
